@@ -1,5 +1,6 @@
 import Toodee.Spec.History
 import Toodee.Proofs.HistoryInplace
+import Toodee.Proofs.HistoryView
 import Toodee.Properties.C06
 import Toodee.Properties.C07
 import Toodee.Properties.C08
@@ -11,7 +12,7 @@ import Toodee.Properties.C20
 /-
   Lemmas for C01 (histories), part 2: for every operation of a history (`HOp`) the shape invariant after it (`hs_inv_*`), the
   outcome the caller sees (`hs_res_*`: never `ub`, never `fuel`), and its agreement with the rows-of-cells model (`hs_ref_*`).
-  The in-place operations are in Proofs/HistoryInplace.lean.
+  The in-place operations are in Proofs/HistoryInplace.lean, blocks of calls on a view in Proofs/HistoryView.lean.
 -/
 namespace Toodee
 variable {α : Type}
@@ -169,6 +170,7 @@ theorem hs_step_inv (e : HEnv) (he : e.ok) (t : TD α) (h : t.Inv) (op : HOp α)
   | capacityCall => exact h
   | takeInto k => exact hs_inv_empty
   | inplace op => exact hs_inv_inplace e.m e.lim t h op hop
+  | viaView s e' ops => exact hs_inv_viaView e t h s e' ops hop
 
 /-! ### the outcome the caller sees -/
 
@@ -246,6 +248,7 @@ theorem hs_step_res (e : HEnv) (he : e.ok) (t : TD α) (h : t.Inv) (op : HOp α)
     obtain ⟨h1, h2, _⟩ := hs_spec_facts e.lim t h op hop.1
     rw [← hs_run_spec e.m e.lim t h op hop] at h1 h2
     exact gen _ h1 h2
+  | viaView s e' ops => exact hs_res_viaView e t h s e' ops hop
 
 /-! ### each operation against the rows-of-cells model -/
 
@@ -532,5 +535,6 @@ theorem hs_step_refines (e : HEnv) (he : e.ok) (t : TD α) (h : t.Inv) (op : HOp
     · intro side col hs
       subst hs
       exact hfit
+  | viaView s e' ops => exact hs_ref_viaView e t h s e' ops hop hfit g' hg
 
 end Toodee
